@@ -25,7 +25,9 @@ type Op struct {
 	Args   []string `json:"args"`   // argument values
 	Cap    int      `json:"cap"`    // spare capacity of the argument slice
 	Shared bool     `json:"shared"` // argument is a sub-slice of a larger caller-owned array
-	Own    bool     `json:"own"`    // argument is the list's own All() result
+	Own    bool     `json:"own"`    // argument is (a tail of) the list's own All() result
+	From   int      `json:"from"`   // with Own: the argument is All()[From%(len+1):]
+	Hold   bool     `json:"hold"`   // the caller keeps the slice All() returned before this call and expects it untouched
 	Mutate bool     `json:"mutate"` // caller overwrites its argument slice (and its spare capacity) after the call
 }
 
@@ -59,9 +61,15 @@ func check(t h.TB, c Case) {
 		// build the caller's argument
 		var arg []string
 		var whole []string
+		var held, heldSnap []string
+		if op.Hold {
+			held = d.All()
+			heldSnap = append([]string{}, held...)
+		}
 		switch {
 		case op.Own:
 			arg = d.All()
+			arg = arg[op.From%(len(arg)+1):]
 		case op.Shared:
 			whole = make([]string, len(op.Args)+4)
 			for j := range whole {
@@ -101,6 +109,12 @@ func check(t h.TB, c Case) {
 		}
 		if len(d) != len(model) {
 			h.Fail(t, sub, c, "after op %d (%s): len %d, model %d", i, op.Kind, len(d), len(model))
+		}
+		if op.Own && !eq(arg, snapshot) {
+			h.Fail(t, sub, c, "op %d (%s) modified its argument (a slice of the list's own All()): %q -> %q", i, op.Kind, snapshot, arg)
+		}
+		if op.Hold && !eq(held, heldSnap) {
+			h.Fail(t, sub, c, "op %d (%s) modified the slice All() had returned before the call: %q -> %q", i, op.Kind, heldSnap, held)
 		}
 		if !op.Own {
 			if !eq(arg, snapshot) {
@@ -199,6 +213,7 @@ func genCase(t *rapid.T) (Case, bool) {
 			switch rapid.IntRange(0, 5).Draw(t, "argkind") {
 			case 0:
 				op.Own = true
+				op.From = rapid.IntRange(0, 4).Draw(t, "from")
 			case 1:
 				op.Shared = true
 				op.Args = vals(0, 4)
@@ -207,6 +222,7 @@ func genCase(t *rapid.T) (Case, bool) {
 				op.Cap = rapid.IntRange(0, 3).Draw(t, "cap")
 			}
 			op.Mutate = rapid.Bool().Draw(t, "mutate")
+			op.Hold = rapid.IntRange(0, 3).Draw(t, "hold") == 0
 			if (op.Cap > 0 || op.Shared || op.Mutate) && len(op.Args) > 0 {
 				nontrivial = true
 			}
@@ -231,6 +247,7 @@ func TestReplay(t *testing.T) {
 	// fixed examples: prepend/replace with a spare-capacity argument, self-append
 	for _, c := range []Case{
 		{Ops: []Op{{Kind: "Append", Args: []string{"// a"}, Cap: 2, Mutate: true}, {Kind: "Prepend", Args: []string{"/*b*/"}, Cap: 3, Mutate: true}, {Kind: "Replace", Args: []string{"// c", "\n"}, Shared: true, Mutate: true}}},
+		{Initial: []string{"// a", "// b", "// c"}, Ops: []Op{{Kind: "Replace", Own: true, From: 1, Hold: true}, {Kind: "Replace", Args: []string{"/*z*/"}, Hold: true}}},
 		{Initial: []string{"// a"}, Ops: []Op{{Kind: "Append", Own: true}, {Kind: "Prepend", Own: true}, {Kind: "Clear"}, {Kind: "Append", Args: []string{"/*x*/"}, Shared: true, Mutate: true}}},
 	} {
 		h.Eval("Fixed")
